@@ -742,6 +742,11 @@ func (g *Gen) nextOp(f *sif.FileImage) *Op {
 				ex := make([]byte, 11)
 				ex[0], ex[4] = byte(1+r.Intn(5)), byte(1+r.Intn(4))
 				copy(ex[8:], pick(r, archCodes))
+				if r.Chance(1, 4) {
+					// a code this release has no name for (a newer writer's, or none at all)
+					copy(ex[8:], pick(r, []string{"00", "13", "99"}))
+					g.count("setmeta:partition-record-unknown-arch-code")
+				}
 				op.ID, op.MD = pick(r, in.parts), MD{Kind: "raw", B: ex}
 				g.count("setmeta:partition-record-as-raw-bytes")
 			}
@@ -843,6 +848,10 @@ func (g *Gen) callerPred(in imgInfo) Sel {
 	if r.Chance(1, 3) {
 		s.Nest = true
 		g.count("q:caller-predicate-queries-the-same-handle")
+	}
+	if r.Chance(1, 3) {
+		s.ByStream = true
+		g.count("q:caller-predicate-reads-the-descriptor-stream")
 	}
 	if r.Chance(1, 2) {
 		switch {
